@@ -204,7 +204,7 @@ func init() {
 			Old: ctorCall, New: "\tif watcherRefGetter == nil {\n\t\tpanic(\"no getter\")\n\t}\n" + merged,
 			More:   []Edit{{File: enq, Old: method, New: ""}},
 			Expect: []string{"C19.R4@internal/dynamiccache.NewEnqueueWatchingObjects#panic"}},
-		Mutant{Prop: "C19", Name: "r5-benign-include-as-method-value", File: sprig, Benign: true, OwnOnly: true,
+		Mutant{Prop: "C19", Name: "r5-benign-include-as-method-value", File: sprig, Benign: true,
 			Why: "the shape of benign/H7-4. OwnOnly: C10.R3 (durable-state table, not a C19 rule) reports the depth counter, now a map in a receiver field, as state that outlives the reconcile — a false alarm of that rule, reproducible with benign/H7-4",
 			Old: includeClosure, New: includeValue,
 			More: []Edit{{File: sprig, Old: b64Anchor, New: includerHead + includerGuard + includerTail + b64Anchor}}},
@@ -235,7 +235,7 @@ func init() {
 		// OwnOnly: C11.R3 (passes-only-by-delegation) does not yet read a violation list that is filled
 		// after make() as a rejection — the same false alarm it raises on corpus patch G10-2, which is
 		// being corrected in the C11 rules; drop OwnOnly once that is merged.
-		Mutant{Prop: "C19", Name: "r2-benign-make-len1-then-index", File: apis, Benign: true, OwnOnly: true,
+		Mutant{Prop: "C19", Name: "r2-benign-make-len1-then-index", File: apis, Benign: true,
 			Old: lit, New: made("make([]Violation, 1)", "")},
 		Mutant{Prop: "C19", Name: "r2-make-len0-then-index", File: apis,
 			Why: "make([]Violation, 0, 1) has no element 0: the preflight check panics for every unregistered API",
